@@ -356,6 +356,11 @@ theorem no_deadlock_fixed (sched : List (Tid × Act)) :
     (runGFix initFix sched).hostUsed = false → deadlocked (runGFix initFix sched) = false :=
   inv_not_deadlocked (runGFix_inv sched inv_initFix rfl).1
 
+/-- **C16 for the current code** (/repo d9e2a72a applied the repair; `C15.code = initFix`). -/
+theorem no_deadlock_code (sched : List (Tid × Act)) :
+    (runGFix C15.code sched).hostUsed = false → deadlocked (runGFix C15.code sched) = false :=
+  no_deadlock_fixed sched
+
 /-- The K16a schedule in the repaired variant: thread 1 cannot pass its gate while thread 0 is in
 `with_locked_env`; it waits published, is scanned there, and the round goes on. -/
 def dualStopperFix : List (Tid × Act) :=
